@@ -390,6 +390,16 @@ theorem kickIdx_some {regs : List Reg} {sid i : Nat} (h : kickIdx regs sid = som
         obtain ⟨r, h1, h2, h3⟩ := ih hk
         exact ⟨r, by simpa using h1, h2, h3⟩
 
+theorem kickIdx_none {regs : List Reg} {sid : Nat} (h : ∀ r ∈ regs, r.used = true → r.sub ≠ sid) :
+    kickIdx regs sid = none := by
+  induction regs with
+  | nil => rfl
+  | cons x xs ih =>
+    unfold kickIdx
+    have hx : ¬ (x.used = true ∧ x.sub = sid) := fun hc => h x (List.mem_cons_self) hc.1 hc.2
+    rw [if_neg hx, ih (fun r hr => h r (List.mem_cons_of_mem _ hr))]
+    rfl
+
 /-! ### the subscriber-local steps preserve the invariant -/
 
 theorem inv_advance (s : State) (h : Nat) (hi : Inv s) : Inv (stepAdvance s h).1 := by
